@@ -71,6 +71,21 @@ def export(name, what, n, prof="core", sig="sig6", timeout=1800):
     return path
 
 
+def ctx2(ctx, name, count):
+    """`count` seeded picks of (outer context, inner context, filler); TLC (MC_Export, What=ctx2) builds the patterns from Gram.tla"""
+    ncx, nfill = 44, 60
+    picks = [dict(i=ctx.rng.randint(1, ncx), j=ctx.rng.randint(1, ncx), f=ctx.rng.randint(1, nfill)) for _ in range(count)]
+    d = workdir(ctx.prop)
+    pf = os.path.join(d, name + ".picks.ndjson")
+    write_ndjson(pf, picks)
+    out = os.path.join(d, name + ".ctx2.ndjson")
+    r = tlc.run_tlc("MC_Export", env=dict(VH_WHAT="ctx2", VH_OUT=out, VH_N=0, VH_PROF="core", VH_SIG="sig6", VH_PICKS=pf), xmx="4g", timeout=1800,
+                    tag="export-ctx2", deque=False)
+    if not r.ok or not os.path.exists(out):
+        raise ToolError("export ctx2 failed:\n%s" % "\n".join(r.out.splitlines()[-20:]))
+    return read_ndjson(out)
+
+
 def pats(prof, n):
     return export("pats_%s_%d" % (prof, n), "pats", n, prof=prof)
 
